@@ -860,6 +860,7 @@ class Lexer:
                         source=self.source,
                     )
                 )
+                self.start = self.pos
                 continue
 
             if kind == "RAW":
@@ -896,6 +897,7 @@ class Lexer:
                         source=self.source,
                     )
                 )
+                self.start = self.pos
                 continue
 
             if kind == "COMMENT_TAG":
@@ -1127,6 +1129,7 @@ class Lexer:
                         )
                         self.wc.clear()
                         self.tag_name = ""
+                        self.start = self.pos
                         break
                 elif tag_name == "raw":
                     raw_depth += 1
